@@ -13,6 +13,7 @@ import networkx as nx
 
 from .. import AnalysisError, tables
 from ..callgraph import callgraph
+from ..canon import single_assignments
 from ..pm import src, dotted
 from ..q import FA, call_name, const, guard_facts, is_self_attr, walk_no_nested
 from ..resolve import resolver
@@ -373,7 +374,12 @@ def run(ctx):
         if isinstance(n, (ast.Assign, ast.AugAssign)):
             tg = n.targets[0] if isinstance(n, ast.Assign) else n.target
             if isinstance(tg, ast.Attribute) and tg.attr in ("likelihood_evaluations", "likelihood_evaluation_time"):
-                ok = isinstance(n, ast.AugAssign) and isinstance(n.op, ast.Add) and f"_previous_{tg.attr}" in src(n.value)
+                inl_br = single_assignments(base_r.node)
+                val_ = n.value
+                for _ in range(3):
+                    if isinstance(val_, ast.Name) and val_.id in inl_br:
+                        val_ = inl_br[val_.id]
+                ok = isinstance(n, ast.AugAssign) and isinstance(n.op, ast.Add) and f"_previous_{tg.attr}" in src(val_)
                 ctx.ob("R-WRITERS", "C12.3", base_r, f"model.{tg.attr} is augmented (+=) with the pickled count on resume, not assigned", ok, f"`{src(n)[:100]}`", node=n)
     from ..q import attr_stores
 
